@@ -265,6 +265,6 @@ func init() {
 }
 
 func TestPropDHCPv6Parsers(t *testing.T) {
-	runProp(t, 14000, 280000, "dhcpv6.ParseMessage", "dhcpv6.ParseOptions", "dhcpv6.ParseIANA", "dhcpv6.ParseIAPD", "dhcpv6.ParseIAAddress", "dhcpv6.ParseIAPrefix", "dhcpv6.ParseDUID")
+	runProp(t, 10000, 200000, "dhcpv6.ParseMessage", "dhcpv6.ParseOptions", "dhcpv6.ParseIANA", "dhcpv6.ParseIAPD", "dhcpv6.ParseIAAddress", "dhcpv6.ParseIAPrefix", "dhcpv6.ParseDUID")
 }
-func TestPropDHCPv6Handler(t *testing.T) { runProp(t, 5000, 100000, "dhcp6-handler") }
+func TestPropDHCPv6Handler(t *testing.T) { runProp(t, 4000, 80000, "dhcp6-handler") }
